@@ -39,7 +39,7 @@ def run(chk):
         rU, rV = r.choice([1, 2]), r.choice([1, 2])
         dscale = r.choice([1e-3, 0.3, 1.0, 2.0])        # the test suite only sees D ~ 1e-10
         m = fa.make_machine(kind, ubm, rU, rV, r=r, dscale=dscale)
-        stats = fa.gen_stats(r, ubm, r.choice([1, 2, 4]))
+        stats = fa.gen_stats(r, ubm, r.choice([1, 2, 4]), zero=True)
         K = r.choice([1, 2, 3, 6])
         ctx = dict(fa.dump_machine(m, kind), kind=kind, stats=fa.dump_stats(stats), iterations=K, D_scale=dscale)
         # ---- correspondence: enroll for K iterations
